@@ -83,6 +83,17 @@ func init() {
 		Old: "\tres.hasNewValue = true\n", New: "", Expect: "notes-every-write"})
 	seed(Seed{Name: "persistent-store-failure-ignored", Prop: "C01", Rule: "STORE-DECISION", File: res + "persistent.go",
 		Old: "\t\t\tif err != nil {\n\t\t\t\tpanic(err)\n\t\t\t}\n\t\t\tres.hasNewValue = false", New: "\t\t\tif err != nil {\n\t\t\t\tlog.Println(err)\n\t\t\t}\n\t\t\tres.hasNewValue = false", Expect: "Persistent.Commit"})
+	seed(Seed{Name: "gcounter-encode-skips-zero-counts", Prop: "C12", Rule: "GOB-WHOLE", File: res + "gcounter.go",
+		Old: "\t\tk, v, _ := it.Next()\n\t\tpair := GCounterKeyVal{K: k, V: v}\n\t\terr := encoder.Encode(&pair)", New: "\t\tk, v, _ := it.Next()\n\t\tif v == 0 {\n\t\t\tcontinue\n\t\t}\n\t\tpair := GCounterKeyVal{K: k, V: v}\n\t\terr := encoder.Encode(&pair)", Expect: "ships-every-element"})
+	seed(Seed{Name: "aworset-encode-walks-derived-map", Prop: "C12", Rule: "GOB-WHOLE", File: res + "aworset.go",
+		Old: "\tit = s.remMap.Iterator()\n\tfor !it.Done() {\n\t\tk, v, _ := it.Next()\n\t\tmaps.RemMap", New: "\tlive := s.remMap\n\tlive = live.Delete(tla.MakeString(\"\"))\n\tit = live.Iterator()\n\tfor !it.Done() {\n\t\tk, v, _ := it.Next()\n\t\tmaps.RemMap", Expect: "component-of-the-receiver"})
+	seed(Seed{Name: "vclock-encode-forgets-component", Prop: "C05", Rule: "GOB-WHOLE", File: tla + "value.go",
+		Old: "\tit := v.AsFunction().Iterator()\n\tfor !it.Done() {\n\t\tkey, value, _ := it.Next()\n\t\tfield := RecordField{", New: "\tit := v.AsFunction().Iterator()\n\tfor !it.Done() {\n\t\tkey, value, _ := it.Next()\n\t\tif value.data == nil {\n\t\t\tcontinue\n\t\t}\n\t\tfield := RecordField{", Expect: "valueFunction.GobEncode"})
+	seed(Seed{Name: "outputchan-commit-keeps-buffer", Prop: "C06", Rule: "CH-DEFER", File: res + "channels.go",
+		Old: "\t\tres.buffer = nil\n\t\tch <- struct{}{}", New: "\t\tch <- struct{}{}", Expect: "forgets-sent-values"})
+	seed(Seed{Name: "broadcast-round-shares-one-deadline", Prop: "C13", Rule: "ONESHOT-FRESH", File: res + "crdt.go",
+		Old: "\tcalls := hashmap.New[callWithTimeout]()\n\tfor _, id := range res.peerIds {\n\t\tif client, ok := res.conns.Get(id); ok {\n\t\t\tvar reply ReceiveValueResp\n\t\t\tcalls.Set(id, callWithTimeout{\n\t\t\t\tcall:        client.Go(\"CRDTRPCReceiver.ReceiveValue\", args, &reply, nil),\n\t\t\t\ttimeoutChan: time.After(res.config.sendTimeout),",
+		New: "\troundTimeout := time.After(res.config.sendTimeout)\n\tcalls := hashmap.New[callWithTimeout]()\n\tfor _, id := range res.peerIds {\n\t\tif client, ok := res.conns.Get(id); ok {\n\t\t\tvar reply ReceiveValueResp\n\t\t\tcalls.Set(id, callWithTimeout{\n\t\t\t\tcall:        client.Go(\"CRDTRPCReceiver.ReceiveValue\", args, &reply, nil),\n\t\t\t\ttimeoutChan: roundTimeout,", Expect: "crdt.broadcast"})
 	seed(Seed{Name: "merge-second-loop-reuses-iterator", Prop: "C12", Rule: "ITER-FRESH", File: res + "aworset.go",
 		Old: "\ti = remK.Iterator()\n", New: "", Expect: "AWORSet.Merge"})
 }
